@@ -160,12 +160,39 @@ Proof. exact push_open. Qed.
 Print Assumptions C16_wrapper_pushed.
 
 (* by value: the authorization endpoint answers a wrapped object exactly as it answers its content, when RequestParam
-   is not among the usable client-authentication methods or the wrapper says cty "JWT" and opens onto a JWS / JSON *)
+   is not among the usable client-authentication methods, or the wrapper opens onto JSON claims nobody signed
+   (whatever its cty header), or it opens onto a JWS and says cty "JWT" (opens_on_claims).  What is left out: a
+   wrapper without cty "JWT" around a JWS, which RequestParam reads as raw text and gives up on - there the wrapper
+   carries less authority than the bare JWS would (no `authenticated` mark), never more. *)
 Theorem C16_wrapper_by_value : forall g d st outer w,
   (~ In MReqParam (methods g) \/ opens_on_claims w) ->
   authz_parse g d st outer (Some w) = authz_parse g d st outer (Some (open_wrapper w)).
 Proof. exact authz_open. Qed.
 Print Assumptions C16_wrapper_by_value.
+
+(* ... in particular claims nobody signed inside a wrapper that opens are answered exactly as the unsigned object with
+   those claims, whatever the client-authentication methods (RequestParam included) and the cty header *)
+Theorem C16_wrapper_unsigned_by_value : forall g d st outer h c,
+  j_state h = JOpens ->
+  authz_parse g d st outer (Some (WEnc h (IJson c))) = authz_parse g d st outer (Some (WObj s_none c None)).
+Proof. exact authz_open_json. Qed.
+Print Assumptions C16_wrapper_unsigned_by_value.
+
+(* the request_param method never takes the client's identity from claims nobody signed: on JSON inside a wrapper
+   it gives up (verify_client goes on with the next method), and an identity it does answer is the iss of claims - the
+   content of the wrapper when there is one - whose signature verified under a key the key jar holds for that iss *)
+Theorem C16_request_param_unsigned : forall g h c, request_param g (WEnc h (IJson c)) = RpContinue.
+Proof. exact request_param_unsigned. Qed.
+Print Assumptions C16_request_param_unsigned.
+
+Theorem C16_request_param_signed : forall g w i,
+  request_param g w = RpIdent i ->
+  exists alg claims sg k cands n,
+    open_wrapper w = WObj alg claims sg /\ alg_kind alg = AlgK k /\
+    lookup_keys g (iss_for claims None) k (kid_of sg) = Some cands /\
+    try_verify cands alg claims sg = VOk n /\ assoc k_iss claims = Some (PS_ i).
+Proof. exact request_param_ident_signed. Qed.
+Print Assumptions C16_request_param_signed.
 
 (* by request_uri: a wrapped document never takes effect (the only accepted outcome for that uri is a pushed request
    stored under it) *)
@@ -332,8 +359,9 @@ Example C16_wrapped_accepts :
     (authz_results (run (ex_cfg true (RStr s_rs256)) [] (init 0)
        [OPush s_c1 ex_by_value (Some (wenc ex_hdr gen)) ex_urn; OAuthz (ex_by_uri ex_urn) None]))
   = [(true, false, Some ex_urn)] /\
-  opens_on_claims (wenc (jhdr s_ecdh_es s_a128gcm true JOpens) gen).
-Proof. vm_compute. repeat split; try reflexivity. discriminate. Qed.
+  opens_on_claims (wenc (jhdr s_ecdh_es s_a128gcm true JOpens) gen) /\
+  opens_on_claims (wencj ex_hdr (ex_claims s_c1 s_r1)).
+Proof. vm_compute. repeat split; reflexivity. Qed.
 
 (* ... and refused: claims nobody signed / an alg=none JWS inside the wrapper although RS256 is registered (by value,
    pushed, with and without RequestParam), another client's signature, a tampered JWS, a wrapper that does not open,
